@@ -908,6 +908,30 @@ func main() {
 
 func use(args ...interface{}) {}
 """),
+    ("go-import-forms", """package main
+
+import "fmt"
+
+import rand "math/rand"
+
+import (
+	str "strings"
+	strings2 "strings"
+	bytes "bytes"
+	. "strconv"
+	_ "os"
+	"sort"
+	path "path/filepath"
+)
+
+func main() {
+	xs := []int{2, 1}
+	sort.Ints(xs)
+	var b bytes.Buffer
+	b.WriteString(str.ToUpper("a") + strings2.ToLower("B") + Itoa(rand.Intn(1)))
+	fmt.Println(b.String(), xs, path.Base("x/y"))
+}
+"""),
 ]
 
 
@@ -1316,7 +1340,10 @@ class GoRich:
 
     def program(self):
         out = ["package main", ""]
-        strings_name = self.pick(["strings", "str"])
+        strings_name = self.pick(["strings", "str", "strings "])   # plain / renamed / REDUNDANT alias (name == package name)
+        strings_redundant = strings_name.endswith(" ")
+        strings_name = strings_name.strip()
+        bytes_redundant = self.chance(3)
         used_imports = set()
         types = []       # (name, [embedded field names with their access path head], fields)
         body = []
@@ -1428,12 +1455,24 @@ class GoRich:
         # imports
         imps = []
         if "bytes" in used_imports:
-            imps.append('\t"bytes"')
-            self.note("import:plain")
+            if bytes_redundant:
+                imps.append('\tbytes "bytes"')
+                self.note("import:redundant-alias")
+            else:
+                imps.append('\t"bytes"')
+                self.note("import:plain")
+            if self.chance(3):
+                # the same package a second time under another name
+                imps.append('\tb2 "bytes"')
+                body.append("use(b2.MinRead)")
+                self.note("import:same-package-twice")
         if strings_name in used_imports:
             if strings_name == "str":
                 imps.append('\tstr "strings"')
                 self.note("import:named")
+            elif strings_redundant:
+                imps.append('\tstrings "strings"')
+                self.note("import:redundant-alias")
             else:
                 imps.append('\t"strings"')
                 self.note("import:plain")
